@@ -368,3 +368,115 @@ def probe(payload):
 
 if __name__ == "__main__":
     probe(json.loads(sys.stdin.read()))
+
+
+# ---------------------------------------------------------------------------- SturdyRefs that ARRIVE (RemoteCopy path)
+
+def _fired(d):
+    r = []
+    d.addBoth(r.append)
+    if not r:
+        raise RuntimeError("Deferred did not fire synchronously")
+    if hasattr(r[0], "raiseException"):
+        r[0].raiseException()
+    return r[0]
+
+
+_wire_class = []
+
+
+def received_sturdyref(state):
+    """the SturdyRef a receiver builds from a 'foolscap.SturdyRef' copy with this attribute dictionary
+    (storage.serialize / unserialize: no-argument constructor, then setCopyableState(state))"""
+    from foolscap import storage
+    from foolscap.copyable import Copyable
+    if not _wire_class:
+        class WireSturdyRef(Copyable):
+            typeToCopy = "foolscap.SturdyRef"
+
+            def __init__(self, st):
+                self.__dict__.update(st)
+        _wire_class.append(WireSturdyRef)
+    data = _fired(storage.serialize([_wire_class[0](state)]))
+    return _fired(storage.unserialize(data))[0]
+
+
+def roundtripped_sturdyref(furl):
+    from foolscap import storage
+    from foolscap.referenceable import SturdyRef
+    return _fired(storage.unserialize(_fired(storage.serialize([SturdyRef(furl)]))))[0]
+
+
+def identity_verdict(a, b):
+    """(a == b, a != b, hash equal, b found in {a: 1}, b in {a}) or the name of the exception"""
+    try:
+        return [bool(a == b), bool(a != b), hash(a) == hash(b), b in {a: 1}, b in set([a])]
+    except Exception as e:  # noqa
+        return type(e).__name__
+
+
+# ---------------------------------------------------------------------------- a real Tub, histories of getReference
+
+class _RecordingEndpoint(object):
+    """stands for HostnameEndpoint: records connect() and never answers"""
+    log = []
+
+    def __init__(self, reactor, host, port):
+        self.host, self.port = host, port
+
+    def connect(self, factory):
+        from twisted.internet import defer
+        _RecordingEndpoint.log.append((self.host, self.port))
+        return defer.Deferred()
+
+
+def tub_history(events):
+    """events: ["getref", furl] | ["advance", seconds].  One real Tub (default tcp handler, endpoints recorded,
+    virtual clock, nobody ever answers).  -> one observation per event:
+       dict(fired={index of getref event: exception class name or 'result'}, connects=[(host, port)] started by this event)"""
+    from harness import implenv as E
+    from foolscap.connections import tcp
+    from foolscap.logging import log as flog
+    E.reset_clock()
+    saved_ep, saved_err = tcp.HostnameEndpoint, flog.err
+    tcp.HostnameEndpoint = _RecordingEndpoint
+    flog.err = lambda *a, **k: None
+    obs = []
+    ds = {}
+    try:
+        with E.quiet():
+            tub = E.Tub(certData=E.pem(0))
+            tub.startService()
+            E.turn()
+            for i, e in enumerate(events):
+                del _RecordingEndpoint.log[:]
+                if e[0] == "getref":
+                    try:
+                        d = tub.getReference(e[1])
+                    except Exception as x:  # noqa
+                        from twisted.internet import defer
+                        d = defer.fail(x)
+                    ds[i] = d
+                else:
+                    E.clock.advance(e[1])
+                E.turn()
+                fired = {}
+                for j, d in ds.items():
+                    if d.called:
+                        r = d.result
+                        fired[j] = r.type.__name__ if hasattr(r, "type") else "result"
+                obs.append(dict(fired=fired, connects=list(_RecordingEndpoint.log)))
+            for d in ds.values():
+                d.addErrback(lambda f: None)
+            tub.stopService()
+            E.clock.advance(1000)
+            E.turn()
+    finally:
+        tcp.HostnameEndpoint = saved_ep
+        flog.err = saved_err
+    return obs
+
+
+def connection_timeout():
+    from foolscap.connection import TubConnector
+    return TubConnector.CONNECTION_TIMEOUT
